@@ -1238,7 +1238,67 @@ fn handle_print(ty: &str, a: &[&str]) -> Option<Resp> {
     }
 }
 
+/// `sub=<subpath()> url=<to_branch_url(): some <text> | none | PANIC>`; `to_branch_url` unwraps the
+/// branch of a Git location: the panic is reported as an observable (the model answers `PANIC` too),
+/// not as an oracle failure — none of the 20 properties speaks about this second text form
+fn branch_url_show(v: &Vcs) -> String {
+    let u = match std::panic::catch_unwind(std::panic::AssertUnwindSafe(|| v.to_branch_url())) {
+        Ok(Some(t)) => format!("some {}", es(&t)),
+        Ok(None) => "none".to_string(),
+        Err(_) => "PANIC".to_string(),
+    };
+    format!("sub={} url={}", eopt(v.subpath().as_deref()), u)
+}
+
+/// what can be judged: `subpath()` survives the field round trip of a canonical value; the URL is the
+/// repository URL, for Git followed by `,branch=<branch>`
+fn branch_url_oracle(v: &Vcs) -> Option<String> {
+    if dom(canon_vcs_field(v)) {
+        let (name, value) = v.to_field();
+        match Vcs::from_field(name, &value) {
+            Ok(v2) if v2.subpath() == v.subpath() => {}
+            other => return Some(format!("subpath() changes through the field form: {:?}", other.map(|x| x.subpath()))),
+        }
+    }
+    let got = std::panic::catch_unwind(std::panic::AssertUnwindSafe(|| v.to_branch_url())).ok()?;
+    let want = match v {
+        Vcs::Git { repo_url, branch: Some(b), .. } => Some(format!("{},branch={}", repo_url, b)),
+        Vcs::Git { .. } => return None,
+        Vcs::Bzr { repo_url, .. } | Vcs::Hg { repo_url } => Some(repo_url.clone()),
+        Vcs::Svn { url } => Some(url.clone()),
+        Vcs::Cvs { .. } => None,
+    };
+    if got != want {
+        return Some(format!("to_branch_url() = {:?}, expected {:?}", got, want));
+    }
+    None
+}
+
+fn handle_branch_url(a: &[&str]) -> Option<Resp> {
+    match a {
+        ["v", rest @ ..] => {
+            let v = match rest {
+                ["Git", u, b, p] => Vcs::Git { repo_url: ds(u)?, branch: dopt(b)?, subpath: dopt(p)? },
+                ["Bzr", u, p] => Vcs::Bzr { repo_url: ds(u)?, subpath: dopt(p)? },
+                ["Hg", u] => Vcs::Hg { repo_url: ds(u)? },
+                ["Svn", u] => Vcs::Svn { url: ds(u)? },
+                ["Cvs", r, m] => Vcs::Cvs { root: ds(r)?, module: dopt(m)? },
+                _ => return None,
+            };
+            Some(Resp::with(branch_url_show(&v), branch_url_oracle(&v)))
+        }
+        ["f", n, t] => Some(match Vcs::from_field(&ds(n)?, &ds(t)?) {
+            Ok(v) => Resp::with(format!("ok {} {}", vcs_show(&v), branch_url_show(&v)), branch_url_oracle(&v)),
+            Err(_) => Resp::ok("err".to_string()),
+        }),
+        _ => None,
+    }
+}
+
 pub fn handle(op: &str, a: &[&str]) -> Option<Resp> {
+    if op == "vcs.branchurl" {
+        return handle_branch_url(a);
+    }
     let parts: Vec<&str> = op.split('.').collect();
     match parts.as_slice() {
         ["codec", ty, "parse"] => handle_parse(ty, a),
@@ -1501,14 +1561,21 @@ pub fn generate_c18(tier: &str, seed: u64, out: &mut Out) {
                 let a = [es(u), eopt(*b), eopt(*p)];
                 out.req("codec.ParsedVcs.print", &a);
                 out.req("codec.Vcs.print", &["Git".to_string(), a[0].clone(), a[1].clone(), a[2].clone()]);
+                // Vcs::subpath / Vcs::to_branch_url on the same values (Git without a branch: the
+                // call panics — observable `PANIC` on both sides)
+                out.req("vcs.branchurl", &["v".to_string(), "Git".to_string(), a[0].clone(), a[1].clone(), a[2].clone()]);
             }
         }
         for p in &opts {
             out.req("codec.Vcs.print", &["Bzr".to_string(), es(u), eopt(*p)]);
             out.req("codec.Vcs.print", &["Cvs".to_string(), es(u), eopt(*p)]);
+            out.req("vcs.branchurl", &["v".to_string(), "Bzr".to_string(), es(u), eopt(*p)]);
+            out.req("vcs.branchurl", &["v".to_string(), "Cvs".to_string(), es(u), eopt(*p)]);
         }
         out.req("codec.Vcs.print", &["Hg".to_string(), es(u)]);
         out.req("codec.Vcs.print", &["Svn".to_string(), es(u)]);
+        out.req("vcs.branchurl", &["v".to_string(), "Hg".to_string(), es(u)]);
+        out.req("vcs.branchurl", &["v".to_string(), "Svn".to_string(), es(u)]);
     }
     let frag = ["a", " -b ", "-b", " [", "]", "[", " ", "x", " [x]", "[y]", " -b", "\u{a0}", "é", "\n"];
     let vcs_texts = strings_upto(&frag, if thorough { 5 } else { 4 });
@@ -1521,6 +1588,13 @@ pub fn generate_c18(tier: &str, seed: u64, out: &mut Out) {
     for n in &names {
         for t in ["https://e.org/r", "u -b br [sub]", "u [sub]", "u -b br", ":pserver:x mod", "root mod ule", ""] {
             out.req("codec.Vcs.parse", &[es(n), es(t)]);
+            out.req("vcs.branchurl", &["f".to_string(), es(n), es(t)]);
+        }
+    }
+    // subpath() / to_branch_url() of what from_field returns, over the fragment strings
+    for (i, t) in vcs_texts.iter().enumerate() {
+        if thorough || i % 7 == 0 {
+            out.req("vcs.branchurl", &["f".to_string(), es(names[i % 5]), es(t)]);
         }
     }
 
